@@ -604,16 +604,18 @@ for _pid, (_rules, _text) in _ADD.items():
 ROUND10_TEXT = (" DEADLOOP (verdict for the files in the directories of the anchor files): the interval analysis enters the body of every loop (a count computed from a value "
                 "overwritten a statement earlier makes the loop that does the bulk of the work one that never runs). PARAMCLASS (reference table): the cuts at which a function "
                 "compares an integer parameter with constants are those of the unchanged tree: a cut that vanished while a new one appeared for the same parameter is a case limit that moved. "
-                "CONSTIFACE also records which function is handed on as a callback at each call position (file-local forwarders looked through).")
+                "CONSTIFACE also records which function is handed on as a callback at each call position (file-local forwarders looked through). "
+                "SUMWRAP: in a limit test `a + b <relop> c` on 64-bit unsigned operands into which a parameter the function has not bounded yet enters, the interval analysis (sizes and offsets stored in buffers, slices and fragments bounded by PTRDIFF_MAX) keeps the sum below 2^64; sums of derived locals that intervals cannot bound are listed as not decided.")
 for _pid, _spec in PROPS.items():
     _spec["rules"].append({"run": rules_path.run_deadloop, "floor": 300, "scope": "anchor-dirs"})
     _spec["rules"].append({"run": rules_effect.run_paramclass, "floor": 300, "scope": "anchor-dirs"})
+    _spec["rules"].append({"run": rules_types.run_sumwrap, "floor": 1, "scope": "anchor-dirs"})
     _spec["explanation"] += ROUND10_TEXT
 _ADD10 = {
     "C03": ([{"run": rules_path.run_maxstore, "floor": 3, "ctx": {"files_of": "C13"}}],
             " MAXSTORE (see C13) for the queue the decoders read from."),
     "C04": ([{"run": rules_ref.run_detachrelease, "floor": 1}],
-            " DETACHRELEASE: where a detach implementation answers with another buffer, every path to that return released the caller's reference to the old one (mpt_refcount_lower / free / unref)."),
+            " GAPFILL (LINBUF) also covers the insert functions: the area they return for the caller to fill counts as written, every other byte by which the used length grew (the gap in front of an insert behind the end) was written by the call. DETACHRELEASE: where a detach implementation answers with another buffer, every path to that return released the caller's reference to the old one (mpt_refcount_lower / free / unref)."),
     "C06": ([{"run": rules_path.run_lazyread, "floor": 5, "use_anchor_files": True}],
             " LAZYREAD: a table pointer that is created on first use is read only behind a first-use test of that table in the same function (or in front of every call of a file-local helper); a reader that merely skips its work while the table does not exist depends on the order of the first lookups."),
     "C11": ([{"run": rules_event.run_scanall, "floor": 3, "use_anchor_files": True}],
@@ -622,8 +624,8 @@ _ADD10 = {
             " MAXSTORE: a store that changes the capacity of a ring queue is reached only over the not-fragmented edge of a fragmentation test of that queue or behind mpt_queue_align(q, 0), with no store to len / off / max in between (the all-zero reset excepted); effects of other callees on the queue between the two are not modelled."),
     "C15": ([{"run": rules_ref.run_detachrelease, "floor": 1}, {"run": rules_traits.run_initwrites, "floor": 12}],
             " DETACHRELEASE (see C04). INITWRITES (see C05) for every type_traits init operation of the program: element copies that hold references (value stores, arrays of arrays) start from written memory."),
-    "C17": ([{"run": rules_path.run_fragzero, "floor": 2, "use_anchor_files": True}],
-            " FRAGZERO: over all indexed reads through a pointer loaded from a fragment's iov_base the index interval starts at 0 (a count-down that stops in front of index 0 never examines the first byte of a fragment)."),
+    "C17": ([{"run": rules_path.run_fragzero, "floor": 2, "use_anchor_files": True}, {"run": rules_path.run_fragfirst, "floor": 8, "use_anchor_files": True}],
+            " FRAGFIRST: a function handed a fragment list with a count decides no exit by the length of the first fragment alone (outside every loop). FRAGZERO: over all indexed reads through a pointer loaded from a fragment's iov_base the index interval starts at 0 (a count-down that stops in front of index 0 never examines the first byte of a fragment)."),
     "C19": ([], " DERIVEDFIELD also has a path clause: behind a change of the source member (a store, or a callee handed the address of the sub-object it lives in) no non-failure exit is reached with the cached pointer neither stored again nor null beforehand."),
 }
 for _pid, (_rules, _text) in _ADD10.items():
